@@ -196,6 +196,27 @@ def careless_jwe(alg, enc, jwk, sender_jwk, plaintext):
         return None
 
 
+# further ways in which a key comes to declare something: a key the library generated with the declaration as its parameters, and a JWK handed over
+# as a read-only or wrapped mapping instead of a dict (refusing such a value at import is fine; taking it and forgetting what it declares is not)
+MORE_VIA = ["generated-with-parameters", "jwk-in-a-MappingProxyType", "jwk-in-a-UserDict"]
+
+
+def other_sources(via, kind, jwk, base_src, decl, private, op):
+    import collections
+    import types
+    from joserfc.jwk import OctKey, RSAKey, ECKey, OKPKey
+    cls = {"oct": OctKey, "RSA": RSAKey, "EC": ECKey, "OKP": OKPKey}[jwk["kty"]]
+    if via == "generated-with-parameters":
+        # the material is new, so only operations that need no matching token are judged: signing, and encrypting to the key
+        if op not in ("sign", "encrypt") or jwk["kty"] == "RSA":
+            return None
+        if jwk["kty"] == "oct":
+            return OctKey.generate_key(len(b64.dec(jwk["k"])) * 8, copy.deepcopy(decl))
+        return cls.generate_key(jwk["crv"], copy.deepcopy(decl), private)
+    wrap = types.MappingProxyType if via.endswith("MappingProxyType") else collections.UserDict
+    return cls.import_key(wrap({**base_src, **copy.deepcopy(decl)}))
+
+
 # ------------------------------------------------------------------ harnesses
 JWS_PATHS = ["compact", "flattened", "general", "7797-compact", "7797-flattened", "jwt"]
 
@@ -212,7 +233,8 @@ def h_jws(ctx):
         return Outcome("not-importable", [], nontrivial=None)
     jwk = kind_jwk(kind)
     why = suitable(alg, None, jwk, decl, op, private)
-    via = ctx.choose("declared_via", (["jwk-members", "parameters", "jwk-members+other-parameters", "pem+parameters"] if config.thorough() else ["jwk-members", "jwk-members+other-parameters", "pem+parameters"]) if decl else ["jwk-members"])
+    via = ctx.choose("declared_via", ((["jwk-members", "parameters", "jwk-members+other-parameters", "pem+parameters"] if config.thorough() else ["jwk-members", "jwk-members+other-parameters", "pem+parameters"])
+                                      + (MORE_VIA if path == "compact" else [])) if decl else ["jwk-members"])
     base_src = jwk if private else rjwk.public_of(jwk)
     if via == "jwk-members":
         k = call(A.jkey, {**base_src, **copy.deepcopy(decl)}, "dict")
@@ -220,6 +242,10 @@ def h_jws(ctx):
         k = call(A.jkey, dict(base_src), "dict", private, copy.deepcopy(decl))
     elif via == "jwk-members+other-parameters":
         k = call(A.jkey, {**base_src, **copy.deepcopy(decl)}, "dict", private, {"kid": "key-1"})
+    elif via in MORE_VIA:
+        k = call(other_sources, via, kind, jwk, base_src, decl, private, op)
+        if k.ok and k.value is None:
+            return Outcome("not-applicable", [], nontrivial=None)
     else:
         k = call(A.jkey, dict(base_src), "pem" if jwk["kty"] != "oct" else "bytes", private, copy.deepcopy(decl))
     if not k.ok:
@@ -298,7 +324,8 @@ def h_jwe(ctx):
         return Outcome("not-applicable", [], nontrivial=None)
     jwk = kind_jwk(kind)
     why = suitable(alg, enc, jwk, decl, op, private)
-    via = ctx.choose("declared_via", (["jwk-members", "parameters", "jwk-members+other-parameters", "pem+parameters"] if config.thorough() else ["jwk-members", "jwk-members+other-parameters", "pem+parameters"]) if decl else ["jwk-members"])
+    via = ctx.choose("declared_via", ((["jwk-members", "parameters", "jwk-members+other-parameters", "pem+parameters"] if config.thorough() else ["jwk-members", "jwk-members+other-parameters", "pem+parameters"])
+                                      + (MORE_VIA if path == "compact" else [])) if decl else ["jwk-members"])
     base_src = jwk if private else rjwk.public_of(jwk)
     if via == "jwk-members":
         k = call(A.jkey, {**base_src, **copy.deepcopy(decl)}, "dict")
@@ -306,6 +333,10 @@ def h_jwe(ctx):
         k = call(A.jkey, dict(base_src), "dict", private, copy.deepcopy(decl))
     elif via == "jwk-members+other-parameters":
         k = call(A.jkey, {**base_src, **copy.deepcopy(decl)}, "dict", private, {"kid": "key-1"})
+    elif via in MORE_VIA:
+        k = call(other_sources, via, kind, jwk, base_src, decl, private, op)
+        if k.ok and k.value is None:
+            return Outcome("not-applicable", [], nontrivial=None)
     else:
         k = call(A.jkey, dict(base_src), "pem" if jwk["kty"] != "oct" else "bytes", private, copy.deepcopy(decl))
     if not k.ok:
